@@ -162,10 +162,10 @@ Proof. rewrite update_widths_fold. apply uw_fold_np. discriminate. Qed.
 Lemma format_record_ok st r st' line :
   format_record st r = Ok (st', line) ->
   exists w1, update_widths (rp_widths st) (rdata r) = Ok w1 /\
-  ((rp_order st ++ new_columns (rp_order st) (rdata r) = [] /\
-    st' = mkRP w1 [] (rp_term st) /\ line = trim_end (rraw r))
+  ((rdata r = [] /\
+    st' = mkRP w1 (rp_order st ++ new_columns (rp_order st) (rdata r)) (rp_term st) /\ line = trim_end (rraw r))
    \/
-   (rp_order st ++ new_columns (rp_order st) (rdata r) <> [] /\
+   (rdata r <> [] /\
     exists w order np cells,
       ((overflows_term (rp_term st) w1 = false /\ w = w1 /\
         order = rp_order st ++ new_columns (rp_order st) (rdata r) /\ np = false)
@@ -175,25 +175,25 @@ Lemma format_record_ok st r st' line :
       sequence_res (map (record_cell np w (rdata r)) order) = Ok cells /\
       st' = mkRP w order (rp_term st) /\ line = trim (concat cells))).
 Proof.
-  unfold format_record. intros H.
-  destruct (update_widths (rp_widths st) (rdata r)) as [w1| | |] eqn:Ew; cbn [bind] in H; try discriminate.
+  destruct r as [d raw]. unfold format_record. cbn [rdata rraw]. intros H.
+  destruct (update_widths (rp_widths st) d) as [w1| | |] eqn:Ew; cbn [bind] in H; try discriminate.
   exists w1. split; [reflexivity|].
-  destruct (rp_order st ++ new_columns (rp_order st) (rdata r)) as [|c0 o0] eqn:Eo.
+  destruct d as [|kv d'].
   - left. injection H as <- <-. repeat split.
   - right. split; [discriminate|].
     destruct (overflows_term (rp_term st) w1) eqn:Eov.
-    + destruct (update_widths [] (rdata r)) as [w2| | |] eqn:Ew2; cbn [bind] in H; try discriminate.
-      destruct (sequence_res (map (record_cell (overflows_term (rp_term st) w2) w2 (rdata r))
-                                  (new_columns [] (rdata r)))) as [cells| | |] eqn:Es;
+    + destruct (update_widths [] (kv :: d')) as [w2| | |] eqn:Ew2; cbn [bind] in H; try discriminate.
+      destruct (sequence_res (map (record_cell (overflows_term (rp_term st) w2) w2 (kv :: d'))
+                                  (new_columns [] (kv :: d')))) as [cells| | |] eqn:Es;
         cbn [bind] in H; try discriminate.
       injection H as <- <-.
-      exists w2, (new_columns [] (rdata r)), (overflows_term (rp_term st) w2), cells.
+      exists w2, (new_columns [] (kv :: d')), (overflows_term (rp_term st) w2), cells.
       split; [right; repeat split|]. repeat split. exact Es.
     + cbn [bind] in H.
-      destruct (sequence_res (map (record_cell false w1 (rdata r)) (c0 :: o0))) as [cells| | |] eqn:Es;
+      destruct (sequence_res (map (record_cell false w1 (kv :: d')) (rp_order st ++ new_columns (rp_order st) (kv :: d')))) as [cells| | |] eqn:Es;
         cbn [bind] in H; try discriminate.
       injection H as <- <-.
-      exists w1, (c0 :: o0), false, cells.
+      exists w1, (rp_order st ++ new_columns (rp_order st) (kv :: d')), false, cells.
       split; [left; repeat split|]. repeat split. exact Es.
 Qed.
 
@@ -226,7 +226,7 @@ Theorem record_shows_every_field (st st' : rp_state) (r : record) (line : str) (
 Proof.
   intros H Hget Hin Hren.
   apply format_record_ok in H as [w1 [Ew [[Eo _]|[_ [w [order [np [cells [Hcase [Es [_ ->]]]]]]]]]]].
-  - exfalso. pose proof (in_order1 (rp_order st) (rdata r) k Hin) as Hk. rewrite Eo in Hk. destruct Hk.
+  - exfalso. rewrite Eo in Hin. destruct Hin.
   - assert (Hko : In k order).
     { destruct Hcase as [[_ [_ [-> _]]]|[_ [_ [-> _]]]].
       - apply in_order1. exact Hin.
@@ -257,7 +257,7 @@ Theorem record_order_step (st st' : rp_state) (r : record) (line : str) :
 Proof.
   intros H.
   apply format_record_ok in H as [w1 [Ew [[Eo [-> _]]|[_ [w [order [np [cells [Hcase [_ [-> _]]]]]]]]]]].
-  - left. cbn [rp_order]. symmetry. exact Eo.
+  - left. cbn [rp_order]. reflexivity.
   - cbn [rp_order]. destruct Hcase as [[_ [_ [-> _]]]|[Eov [_ [-> _]]]].
     + left. reflexivity.
     + right. split; [eapply overflows_term_some; exact Eov | reflexivity].
@@ -341,7 +341,7 @@ Proof.
   { apply NoDup_app_intro; [exact Hnd | apply new_columns_nodup; exact Hd |].
     intros x Hx Hx'. apply new_columns_in in Hx' as [_ Hn]. contradiction. }
   apply format_record_ok in H as [w1 [Ew [[Eo [-> _]]|[_ [w [order [np [cells [Hcase [_ [-> _]]]]]]]]]]].
-  - cbn [rp_order]. constructor.
+  - cbn [rp_order]. exact Hnd1.
   - cbn [rp_order]. destruct Hcase as [[_ [_ [-> _]]]|[_ [_ [-> _]]]].
     + exact Hnd1.
     + apply new_columns_nodup. exact Hd.
@@ -387,19 +387,19 @@ Proof.
   - unfold format_record.
     destruct (update_widths (rp_widths st) (rdata r)) as [w1| | |] eqn:Ew; cbn [bind]; try discriminate.
     { specialize (Hord1 w1 eq_refl).
-      destruct (rp_order st ++ new_columns (rp_order st) (rdata r)) as [|c0 o0] eqn:Eo; [discriminate|].
+      destruct (rdata r) as [|kv0 d0] eqn:Ed; [discriminate|].
       destruct (overflows_term (rp_term st) w1) eqn:Eov.
-      - destruct (update_widths [] (rdata r)) as [w2| | |] eqn:Ew2; cbn [bind]; try discriminate.
+      - destruct (update_widths [] (kv0 :: d0)) as [w2| | |] eqn:Ew2; cbn [bind]; try discriminate.
         + specialize (Hord2 w2 eq_refl).
           apply rec_bind_np; [|discriminate].
           apply cells_np. intros c Hc. right. apply Hord2, Hc.
-        + exfalso. exact (update_widths_np [] (rdata r) Ew2).
+        + exfalso. exact (update_widths_np [] (kv0 :: d0) Ew2).
       - cbn [bind]. apply rec_bind_np; [|discriminate].
         apply cells_np. intros c Hc. right. apply Hord1, Hc. }
     exfalso. exact (update_widths_np _ _ Ew).
   - intros st' line H.
     apply format_record_ok in H as [w1 [Ew [[Eo [-> _]]|[_ [w [order [np [cells [Hcase [_ [-> _]]]]]]]]]]].
-    + intros c []. 
+    + unfold rp_inv. cbn [rp_order rp_widths]. apply Hord1. exact Ew.
     + unfold rp_inv. cbn [rp_order rp_widths].
       destruct Hcase as [[_ [-> [-> _]]]|[_ [Ew2 [-> _]]]].
       * apply Hord1. exact Ew.
